@@ -202,6 +202,12 @@ def name_free(fi, node: ast.AST, depth: int = 2, width: int = 90) -> str:
 
         def visit_arg(self, n):
             return ast.arg(arg="_", annotation=None)
+
+        def visit_Compare(self, n):
+            self.generic_visit(n)
+            if len(n.ops) == 1 and type(n.ops[0]) in _FLIP and isinstance(n.left, ast.Constant) and not isinstance(n.comparators[0], ast.Constant):
+                return ast.Compare(left=n.comparators[0], ops=[_FLIP[type(n.ops[0])]()], comparators=[n.left])      # constants to the right
+            return n
     out = R(depth).visit(copy.deepcopy(node))
     s = " ".join(ast.unparse(ast.fix_missing_locations(out)).split())
     return s if len(s) <= width else s[: width - 3] + "..."
